@@ -39,12 +39,12 @@ CHECK = {
                "boundary_inside_json": 0.2, "boundary_at_multibyte_char": 0.1, "empty_chunk": 0.08, "chunks_ge3": 0.4,
                "failure": 0.12, "failure_mid_stream": 0.05, "failure_before_first_chunk": 0.01, "failure_after_last_chunk": 0.01,
                "tokenize_failure_after_done": 0.025, "tokenize_fault_without_effect": 0.04, "reason_length": 0.1, "openai_compared": 0.5, "openai_stream_usage_compared": 0.1, "boundary_after_first_call": 0.03,
-               "more_than_30_equal_chunks_in_a_row": 0.05, "28_to_30_equal_chunks_in_a_row": 0.01, "end_reset": 0.03, "end_badjson": 0.03, "http_error_status": 0.03},
+               "long_output_over_64k": 0.01, "more_than_30_equal_chunks_in_a_row": 0.05, "28_to_30_equal_chunks_in_a_row": 0.01, "end_reset": 0.03, "end_badjson": 0.03, "http_error_status": 0.03},
     "rule": "rapid-generated cases: request shape in {generate raw / templated / with suffix / with format json; chat plain / format json / "
             "format schema / tools ('arguments' template) / tools ('parameters' template) / tools+format / tool-capable model without tools}, "
             "model output built from prose words (ASCII, accented, CJK, emoji, U+2028, quotes, braces), tool-call objects in several "
             "spellings and layouts, non-call JSON, optionally truncated; two independent splits into 1-12 chunks at rune boundaries; done "
-            "reason stop|length; counts 0-500; runner failure after j chunks in 1/4 of the cases; Tokenize failing once the runner has "
+            "reason stop|length; counts 0-500; long-output class (one case in 40 of the shapes without tools: the output is followed by 60-300 KB of filler, so that a non-streamed response and the final message of a streamed generate are single lines far above 64 KiB); runner failure after j chunks in 1/4 of the cases; Tokenize failing once the runner has "
             "delivered Done (tok_fail: 2/5 of the non-raw generate cases, where the handler tokenizes prompt+response for `context`; 1/8 of "
             "the chat and raw cases, where it must change nothing); include_usage drawn. Per case up to 5 "
             "requests through the real router: native non-streamed under both splits (R1), native streamed through api.Client (R2, R4 on the "
@@ -63,7 +63,7 @@ CHECK = {
         "runner gives an unexpected EOF, a failing encoder a plain-text line - so Completion returning nil for it is counted (obs_clean_eof_without_done_returns_nil), not judged",
         "runner chunks are valid UTF-8 and Done arrives in a separate content-free response (what llm/server.go forwards from both runners)",
         "done reason is stop or length (DoneReasonConnectionClosed means the client is gone)",
-        "outputs are far below the 512 KiB line limit of api.Client's scanner (separate issue, DESIGN.md section 5)",
+        "outputs stay below the 512 KiB line limit of api.Client's scanner (the long-output class reaches about 300 KB per line)",
         "generated tool-call arguments never contain an object that is itself a tool call (parseToolCalls collects nested objects in map "
         "iteration order, which would make the expected sequence ambiguous)",
         "when tools are sent, prose around the calls has no braces, brackets or unbalanced double quotes, so that the generator knows which "
